@@ -190,6 +190,8 @@ fn c18_o1_client_mode_silent() {
 //@ ob: C18.O2
 //@ tier: thorough
 //@ cap: 2400
+//@ rss: 8.0
+//@ time: 534
 //@ standins: tracing lru vcoll
 //@ desc: a request adds its sender to a routing table only if the node is in server mode, the requester is not read-only and the request is find_node: into the main table only when the node has no bootstrap list (first node of a network), into the signed-peers table only when the requester's version supports signed peers ('RS' >= 00 06); read-only requesters are never inserted
 //@ bounds: server_mode, read_only, bootstrap-empty, request kind (5), version (None or 4 symbolic bytes) all symbolic; requester id concrete and != own id; unwind 26
@@ -228,17 +230,18 @@ fn c18_o2_learning_from_requests() {
 //@ ob: C18.O5a
 //@ tier: thorough
 //@ cap: 2400
+//@ unwindset_raw: memcmp.0:22
 //@ standins: tracing lru vcoll
 //@ also: C14 C20
 //@ desc: adaptive chain, step 1: when a finished lookup's best-voted address differs from the known public address (or none is known) cleanup_done_queries returns it for a confirming self-ping, records it and sets firewalled; when it equals the known address nothing is returned and the flags are unchanged; without votes nothing happens; the finished lookup leaves the active set and does not restart the 5-minute ping / 15-minute refresh timers (a find_node for an arbitrary target is not a table refresh)
-//@ bounds: one finished lookup with 0 or 1 voted address (symbolic), public_address None / Some(symbolic), firewalled symbolic; unwind 26
+//@ bounds: one finished lookup with 0 or 1 voted address (symbolic), public_address None / Some(symbolic), firewalled symbolic; unwind 4 (containers hold at most one entry), memcmp 22
 //@ stubs: Core::cache_iterative_query -> skipped (lookup cache and statistics are C20.O1); Instant::now; getrandom::fill
 //@ functions: Core::cleanup_done_queries, Core::update_address_votes_from_iterative_query, IterativeQuery::best_address
 #[kani::proof]
 #[kani::stub(std::time::Instant::now, clock::now)]
 #[kani::stub(getrandom::fill, rnd::fill)]
 #[kani::stub(crate::core::Core::cache_iterative_query, cache_skip)]
-#[kani::unwind(26)]
+#[kani::unwind(4)]
 fn c18_o5a_address_vote() {
     clock::set(0);
     let mut core = new_core(false, vec![]);
@@ -276,8 +279,10 @@ fn c18_o5a_address_vote() {
 }
 
 //@ ob: C18.O5b
-//@ tier: thorough
-//@ cap: 2400
+//@ tier: quick
+//@ cap: 800
+//@ rss: 2.0
+//@ time: 45
 //@ standins: tracing lru vcoll
 //@ desc: adaptive chain, step 2: a ping request arriving from exactly the recorded public address clears firewalled (and re-keys both tables with a BEP42 id iff the current id is not valid for that IP); any other request, or a ping from any other address, leaves firewalled unchanged (NAT case: the self-ping never arrives)
 //@ bounds: public address from {10.0.0.1:6881 (private), 8.8.8.8:6881 (public)}; sender symbolic; request kind ping / find_node; requester read-only flag symbolic (a client-mode node's own self-ping is read-only); unwind 26, RoutingTableIterator::next 163 (bucket indices 0..=160)
